@@ -128,11 +128,16 @@ package config
 // ParseConfig reads the version key and hands the text to that version's parser: a certificate or a profile on
 // success (assumed: yaml and the version dispatch are outside the subset).
 //@ func ParseConfig returns (res, err)
-//@   props C18
-//@   unverified yaml.Unmarshal of the version proxy and the Configurator interface dispatch are outside the subset
-//@   abstracts err == nil ==> typeis(res, "*gopki/generator/config.CertificateContent") || typeis(res, "*gopki/generator/config.CertificateProfile")
-//@   abstracts err == nil && typeis(res, "*gopki/generator/config.CertificateContent") ==> unboxRef(res) != 0
-//@   abstracts err == nil && typeis(res, "*gopki/generator/config.CertificateProfile") ==> unboxRef(res) != 0
+//@   props C18 C20
+//@   ghostret VER Int = aftercall("github.com/ghodss/yaml.Unmarshal", 1, deref(addr(proxy)).Version)
+//@   ghostret VERVAL Int = aftercall("github.com/ghodss/yaml.Unmarshal", 1, deref(deref(addr(proxy)).Version))
+//@   ghostret YERR Any = callres("github.com/ghodss/yaml.Unmarshal", 1, 0)
+//@   ensures err != nil ==> res == nil
+// a stream that is not YAML, or has no version key, is reported as an unknown file (which the directory walk skips)
+//@   ensures @C18 bound(YERR) && bound(VER) && (YERR != nil || VER == 0) ==> res == nil && typeis(err, "gopki/generator/config.ErrorUnknownFile")
+// otherwise the registered parser of that version decides; an unregistered version is an error
+//@   ensures @C18 bound(YERR) && bound(VER) && YERR == nil && VER != 0 && bound(VERVAL) && !has(configurators, VERVAL) ==> err != nil
+//@   ensures @C18 err == nil ==> (typeis(res, "*gopki/generator/config.CertificateContent") || typeis(res, "*gopki/generator/config.CertificateProfile")) && unboxRef(res) != 0
 
 //@ func IsErrorUnknownFile returns (res)
 //@   props C18
